@@ -49,12 +49,12 @@ theorem writeParentTagEnd_erase (k : HKind) (s t : SSt) (h : s.core = t.core) :
   | true :: r => simp [SSt.core, h2, h1]
   | false :: r => simp [SSt.core, h2, eraseIns_cons, Tok.isIns]
 
-theorem step_erase (cc : CodeCfg) (c : SerCfg) (k : HKind) (s t : SSt) (e : Ev) (h : s.core = t.core) :
-    (step cc c k s e).1.core = (step cc c .dummy t e).1.core ∧
-    eraseIns (step cc c k s e).2 = (step cc c .dummy t e).2 := by
+theorem stepCore_erase (cc : CodeCfg) (c : SerCfg) (k : HKind) (s t : SSt) (e : Ev) (h : s.core = t.core) :
+    (stepCore cc c k s e).1.core = (stepCore cc c .dummy t e).1.core ∧
+    eraseIns (stepCore cc c k s e).2 = (stepCore cc c .dummy t e).2 := by
   cases e with
   | startElement n a =>
-    simp only [step, startElement]
+    simp only [stepCore, startElement]
     have hn : s.needDoctype = t.needDoctype := by simp only [SSt.core, Prod.mk.injEq] at h; exact h.2
     rw [hn]
     cases hd : t.needDoctype
@@ -71,7 +71,7 @@ theorem step_erase (cc : CodeCfg) (c : SerCfg) (k : HKind) (s t : SSt) (e : Ev) 
       obtain ⟨⟨a1, a2⟩, a3⟩ := this
       simp [a1, a2, a3, eraseIns_cons, Tok.isIns]
   | endElement n =>
-    simp only [step, endElement]
+    simp only [stepCore, endElement]
     have hs : s.elemStack = t.elemStack := by simp only [SSt.core, Prod.mk.injEq] at h; exact h.1
     have hn : s.needDoctype = t.needDoctype := by simp only [SSt.core, Prod.mk.injEq] at h; exact h.2
     rw [hs]
@@ -81,7 +81,7 @@ theorem step_erase (cc : CodeCfg) (c : SerCfg) (k : HKind) (s t : SSt) (e : Ev) 
     | true :: r => simp [SSt.core, hn, eraseIns_cons, Tok.isIns]
     | false :: r => simp [SSt.core, hn, eraseIns_cons, Tok.isIns]
   | characters str =>
-    simp only [step, characters]
+    simp only [stepCore, characters]
     split
     · exact ⟨h, rfl⟩
     · have := writeParentTagEnd_erase k s t h
@@ -89,7 +89,7 @@ theorem step_erase (cc : CodeCfg) (c : SerCfg) (k : HKind) (s t : SSt) (e : Ev) 
       obtain ⟨⟨a1, a2⟩, a3⟩ := this
       simp [a1, a2, a3, eraseIns_cons, Tok.isIns]
   | cdata str =>
-    simp only [step, cdata]
+    simp only [stepCore, cdata]
     split
     · exact ⟨h, rfl⟩
     · have := writeParentTagEnd_erase k s t h
@@ -97,43 +97,98 @@ theorem step_erase (cc : CodeCfg) (c : SerCfg) (k : HKind) (s t : SSt) (e : Ev) 
       obtain ⟨⟨a1, a2⟩, a3⟩ := this
       simp [a1, a2, a3, eraseIns_cons, Tok.isIns]
   | raw str =>
-    simp only [step, charactersRaw]
+    simp only [stepCore, charactersRaw]
     have := writeParentTagEnd_erase k s t h
     simp only [SSt.core, Prod.mk.injEq] at this ⊢
     obtain ⟨⟨a1, a2⟩, a3⟩ := this
     simp [a1, a2, a3, eraseIns_cons, Tok.isIns]
   | comment str =>
-    simp only [step, comment]
+    simp only [stepCore, comment]
     have := writeParentTagEnd_erase k s t h
     simp only [SSt.core, Prod.mk.injEq] at this ⊢
     obtain ⟨⟨a1, a2⟩, a3⟩ := this
     simp [a1, a2, a3, eraseIns_cons, Tok.isIns]
   | pi tg d =>
-    simp only [step, procInstr]
+    simp only [stepCore, procInstr]
     have := writeParentTagEnd_erase k s t h
     simp only [SSt.core, Prod.mk.injEq] at this ⊢
     obtain ⟨⟨a1, a2⟩, a3⟩ := this
     simp [a1, a2, a3, eraseIns_cons, Tok.isIns]
 
-theorem runFrom_erase (cc : CodeCfg) (c : SerCfg) (k : HKind) (evs : List Ev) (s t : SSt) (h : s.core = t.core) :
+/-- the FormatterToXMLUnicode level never touches `m_nextIsRaw` -/
+theorem stepCore_setFlag (cc : CodeCfg) (c : SerCfg) (k : HKind) (s : SSt) (e : Ev) (b : Bool) :
+    stepCore cc c k { s with nextIsRaw := b } e =
+      ({ (stepCore cc c k s e).1 with nextIsRaw := b }, (stepCore cc c k s e).2) := by
+  cases e <;>
+    simp only [stepCore, startElement, endElement, characters, cdata, charactersRaw, comment, procInstr, writeParentTagEnd] <;>
+    (repeat' split) <;> simp_all
+
+theorem stepCore_nextIsRaw (cc : CodeCfg) (c : SerCfg) (k : HKind) (s : SSt) (e : Ev) :
+    (stepCore cc c k s e).1.nextIsRaw = s.nextIsRaw := by
+  have h := stepCore_setFlag cc c k s e s.nextIsRaw
+  have hs : ({ s with nextIsRaw := s.nextIsRaw } : SSt) = s := rfl
+  rw [hs] at h
+  have := congrArg (fun x => x.1.nextIsRaw) h
+  simpa using this
+
+theorem step_erase (cc : CodeCfg) (c : SerCfg) (k : HKind) (s t : SSt) (e : Ev) (h : s.core = t.core)
+    (hf : s.nextIsRaw = t.nextIsRaw) :
+    (step cc c k s e).1.core = (step cc c .dummy t e).1.core ∧
+    (step cc c k s e).1.nextIsRaw = (step cc c .dummy t e).1.nextIsRaw ∧
+    eraseIns (step cc c k s e).2 = (step cc c .dummy t e).2 := by
+  have core := fun (s t : SSt) (e : Ev) (h : s.core = t.core) (hf : s.nextIsRaw = t.nextIsRaw) =>
+    (show (stepCore cc c k s e).1.core = (stepCore cc c .dummy t e).1.core ∧
+        (stepCore cc c k s e).1.nextIsRaw = (stepCore cc c .dummy t e).1.nextIsRaw ∧
+        eraseIns (stepCore cc c k s e).2 = (stepCore cc c .dummy t e).2 from
+      ⟨(stepCore_erase cc c k s t e h).1, by rw [stepCore_nextIsRaw, stepCore_nextIsRaw, hf],
+       (stepCore_erase cc c k s t e h).2⟩)
+  cases e with
+  | pi tg d =>
+    simp only [step]
+    split
+    · exact ⟨h, rfl, rfl⟩
+    · exact core s t _ h hf
+  | characters str =>
+    simp only [step, hf]
+    split
+    · exact ⟨h, hf, rfl⟩
+    · split
+      · exact core _ _ _ h rfl
+      · exact core s t _ h hf
+  | cdata str =>
+    simp only [step, hf]
+    split
+    · exact ⟨h, hf, rfl⟩
+    · split
+      · exact core _ _ _ h rfl
+      · exact core s t _ h hf
+  | startElement n a => exact core s t _ h hf
+  | endElement n => exact core s t _ h hf
+  | raw str => exact core s t _ h hf
+  | comment str => exact core s t _ h hf
+
+theorem runFrom_erase (cc : CodeCfg) (c : SerCfg) (k : HKind) (evs : List Ev) (s t : SSt) (h : s.core = t.core)
+    (hf : s.nextIsRaw = t.nextIsRaw) :
     (runFrom cc c k s evs).1.core = (runFrom cc c .dummy t evs).1.core ∧
     eraseIns (runFrom cc c k s evs).2 = (runFrom cc c .dummy t evs).2 := by
   induction evs generalizing s t with
   | nil => exact ⟨h, rfl⟩
   | cons e es ih =>
     simp only [runFrom]
-    obtain ⟨h1, h2⟩ := step_erase cc c k s t e h
-    obtain ⟨h3, h4⟩ := ih _ _ h1
+    obtain ⟨h1, hf1, h2⟩ := step_erase cc c k s t e h hf
+    obtain ⟨h3, h4⟩ := ih _ _ h1 hf1
     exact ⟨h3, by simp [h2, h4]⟩
 
-theorem body_erase (cc : CodeCfg) (c : SerCfg) (k : HKind) (evs : List Ev) (s t : SSt) (h : s.core = t.core) :
+theorem body_erase (cc : CodeCfg) (c : SerCfg) (k : HKind) (evs : List Ev) (s t : SSt) (h : s.core = t.core)
+    (hf : s.nextIsRaw = t.nextIsRaw) :
     eraseIns (body cc c k s evs) = body cc c .dummy t evs := by
   simp only [body]
-  obtain ⟨_, h2⟩ := runFrom_erase cc c k evs s t h
+  obtain ⟨_, h2⟩ := runFrom_erase cc c k evs s t h hf
   simp [h2, endDocument]
 
 theorem startDocument_erase (c : SerCfg) (k : HKind) :
     (startDocument c k).1.core = (startDocument c .dummy).1.core ∧
+    (startDocument c k).1.nextIsRaw = (startDocument c .dummy).1.nextIsRaw ∧
     eraseIns (startDocument c k).2 = (startDocument c .dummy).2 := by
   unfold startDocument
   cases c.shouldWriteXMLHeader <;> cases hd : c.doctypeSystem.isEmpty <;>
@@ -161,10 +216,11 @@ def Ev.isText : Ev → Bool
   | .characters _ => true
   | .cdata _ => true
   | .raw _ => true
+  | .pi t d => isRawMarker t d      -- the marker announces the text that follows
   | _ => false
 
 /-- the event is handled by a function that tells the indent handler when it wrote character data -/
-def Ev.tracked (cc : CodeCfg) : Ev → Bool
+def Ev.trackedCore (cc : CodeCfg) : Ev → Bool
   | .cdata _ => cc.cdataSetsPrevText
   | .raw _ => cc.rawSetsPrevText
   | _ => true
@@ -174,30 +230,30 @@ def Inv (s : SSt) (p : Option Bool) : Prop :=
   p = some true → s.i.isprevtext = true ∧ s.elemStack.head? ≠ some false
 
 set_option linter.unusedSimpArgs false in
-theorem step_noAdj (cc : CodeCfg) (c : SerCfg) (n : Nat) (s : SSt) (e : Ev) (p : Option Bool)
-    (htr : e.tracked cc = true) (h : Inv s p) (hp : p = some false → e.isText = false) :
-    noAdjFrom p (step cc c (.real n) s e).2 = true ∧
-    Inv (step cc c (.real n) s e).1 (lastClsFrom p (step cc c (.real n) s e).2) ∧
-    lastClsFrom p (step cc c (.real n) s e).2 ≠ some false := by
-  obtain ⟨stack, nd, ⟨ci, snl, pres, prev, pstack⟩⟩ := s
+theorem stepCore_noAdj (cc : CodeCfg) (c : SerCfg) (n : Nat) (s : SSt) (e : Ev) (p : Option Bool)
+    (htr : e.trackedCore cc = true) (h : Inv s p) (hp : p = some false → e.isText = false) :
+    noAdjFrom p (stepCore cc c (.real n) s e).2 = true ∧
+    Inv (stepCore cc c (.real n) s e).1 (lastClsFrom p (stepCore cc c (.real n) s e).2) ∧
+    lastClsFrom p (stepCore cc c (.real n) s e).2 ≠ some false := by
+  obtain ⟨stack, nd, ⟨ci, snl, pres, prev, pstack⟩, nr⟩ := s
   unfold Inv at h ⊢
   simp only at h
   -- the last token class: nothing/other, character data, or inserted
   rcases p with _ | _ | _
   · -- p = none
     cases e <;> rcases stack with _ | ⟨_ | _, rest⟩ <;> cases nd <;> cases snl <;> cases pres <;> cases prev <;>
-      simp_all [step, startElement, endElement, characters, cdata, charactersRaw, comment, procInstr,
+      simp_all [stepCore, startElement, endElement, characters, cdata, charactersRaw, comment, procInstr,
         writeParentTagEnd, ISt.upd, ISt.indent, ISt.popPreserve, ISt.pushPreserve, noAdjFrom, lastClsFrom, clsOk,
-        Tok.cls, Tok.isTextual, Tok.isIns, Ev.tracked, Ev.isText] <;>
+        Tok.cls, Tok.isTextual, Tok.isIns, Ev.trackedCore, Ev.isText] <;>
       (try split) <;>
       simp_all [noAdjFrom, lastClsFrom, clsOk, Tok.cls, Tok.isTextual, Tok.isIns, ISt.popPreserve] <;>
       (try (cases pstack <;> simp_all [ISt.popPreserve])) <;>
       (try split) <;> simp_all [noAdjFrom, lastClsFrom, clsOk, Tok.cls, Tok.isTextual, Tok.isIns]
   · -- p = some false: an inserted token was written last (only after the XML declaration)
     cases e <;> rcases stack with _ | ⟨_ | _, rest⟩ <;> cases nd <;> cases snl <;> cases pres <;> cases prev <;>
-      simp_all [step, startElement, endElement, characters, cdata, charactersRaw, comment, procInstr,
+      simp_all [stepCore, startElement, endElement, characters, cdata, charactersRaw, comment, procInstr,
         writeParentTagEnd, ISt.upd, ISt.indent, ISt.popPreserve, ISt.pushPreserve, noAdjFrom, lastClsFrom, clsOk,
-        Tok.cls, Tok.isTextual, Tok.isIns, Ev.tracked, Ev.isText] <;>
+        Tok.cls, Tok.isTextual, Tok.isIns, Ev.trackedCore, Ev.isText] <;>
       (try (cases pstack <;> simp_all [ISt.popPreserve]))
   · -- p = some true
     have h1 : prev = true := (h rfl).1
@@ -207,24 +263,91 @@ theorem step_noAdj (cc : CodeCfg) (c : SerCfg) (n : Nat) (s : SSt) (e : Ev) (p :
     rcases stack with _ | ⟨_ | _, rest⟩
     · clear h2
       cases e <;> cases nd <;> cases snl <;> cases pres <;>
-        simp_all [step, startElement, endElement, characters, cdata, charactersRaw, comment, procInstr,
+        simp_all [stepCore, startElement, endElement, characters, cdata, charactersRaw, comment, procInstr,
           writeParentTagEnd, ISt.upd, ISt.indent, ISt.popPreserve, ISt.pushPreserve, noAdjFrom, lastClsFrom, clsOk,
-          Tok.cls, Tok.isTextual, Tok.isIns, Ev.tracked, Ev.isText] <;>
+          Tok.cls, Tok.isTextual, Tok.isIns, Ev.trackedCore, Ev.isText] <;>
         (try split) <;>
         simp_all [noAdjFrom, lastClsFrom, clsOk, Tok.cls, Tok.isTextual, Tok.isIns]
     · exact absurd rfl h2
     · clear h2
       cases e <;> cases nd <;> cases snl <;> cases pres <;>
-        simp_all [step, startElement, endElement, characters, cdata, charactersRaw, comment, procInstr,
+        simp_all [stepCore, startElement, endElement, characters, cdata, charactersRaw, comment, procInstr,
           writeParentTagEnd, ISt.upd, ISt.indent, ISt.popPreserve, ISt.pushPreserve, noAdjFrom, lastClsFrom, clsOk,
-          Tok.cls, Tok.isTextual, Tok.isIns, Ev.tracked, Ev.isText] <;>
+          Tok.cls, Tok.isTextual, Tok.isIns, Ev.trackedCore, Ev.isText] <;>
         (try split) <;>
         simp_all [noAdjFrom, lastClsFrom, clsOk, Tok.cls, Tok.isTextual, Tok.isIns, ISt.popPreserve] <;>
         (try (cases pstack <;> simp_all [ISt.popPreserve])) <;>
         (try split) <;> simp_all [noAdjFrom, lastClsFrom, clsOk, Tok.cls, Tok.isTextual, Tok.isIns]
 
+/-- the event is handled by a function that tells the indent handler when it wrote character data; the raw marker
+counts as tracked when `charactersRaw` (which will write the text it announces) is -/
+def Ev.tracked (cc : CodeCfg) : Ev → Bool
+  | .pi t d => if isRawMarker t d then cc.rawSetsPrevText else true
+  | e => e.trackedCore cc
+
+theorem Inv_setFlag (s : SSt) (p : Option Bool) (b : Bool) : Inv { s with nextIsRaw := b } p ↔ Inv s p := Iff.rfl
+
+theorem step_noAdj (cc : CodeCfg) (c : SerCfg) (n : Nat) (s : SSt) (e : Ev) (p : Option Bool)
+    (htr : e.tracked cc = true) (h : Inv s p) (hp : p = some false → e.isText = false)
+    (hf : s.nextIsRaw = true → cc.rawSetsPrevText = true) :
+    noAdjFrom p (step cc c (.real n) s e).2 = true ∧
+    Inv (step cc c (.real n) s e).1 (lastClsFrom p (step cc c (.real n) s e).2) ∧
+    lastClsFrom p (step cc c (.real n) s e).2 ≠ some false ∧
+    ((step cc c (.real n) s e).1.nextIsRaw = true → cc.rawSetsPrevText = true) := by
+  have core := fun (s : SSt) (e : Ev) (htr : e.trackedCore cc = true) (h : Inv s p)
+      (hp : p = some false → e.isText = false) (hf : s.nextIsRaw = true → cc.rawSetsPrevText = true) =>
+    (show noAdjFrom p (stepCore cc c (.real n) s e).2 = true ∧
+        Inv (stepCore cc c (.real n) s e).1 (lastClsFrom p (stepCore cc c (.real n) s e).2) ∧
+        lastClsFrom p (stepCore cc c (.real n) s e).2 ≠ some false ∧
+        ((stepCore cc c (.real n) s e).1.nextIsRaw = true → cc.rawSetsPrevText = true) from
+      ⟨(stepCore_noAdj cc c n s e p htr h hp).1, (stepCore_noAdj cc c n s e p htr h hp).2.1,
+       (stepCore_noAdj cc c n s e p htr h hp).2.2, by rw [stepCore_nextIsRaw]; exact hf⟩)
+  cases e with
+  | pi tg d =>
+    simp only [step]
+    simp only [Ev.tracked] at htr
+    split
+    · rename_i hm
+      simp only [hm, if_true] at htr
+      refine ⟨rfl, h, ?_, fun _ => htr⟩
+      simp only [lastClsFrom]
+      intro hh
+      have := hp hh
+      simp [Ev.isText, hm] at this
+    · rename_i hm
+      have hm' : isRawMarker tg d = false := by simpa using hm
+      simp only [hm', Bool.false_eq_true, if_false] at htr
+      exact core s _ (by simp [Ev.trackedCore]) h hp hf
+  | characters str =>
+    simp only [step]
+    split
+    · refine ⟨rfl, h, ?_, hf⟩
+      simp only [lastClsFrom]
+      intro hh; have := hp hh; simp [Ev.isText] at this
+    · split
+      · rename_i _ hr
+        exact core _ (.raw str) (by simpa [Ev.trackedCore] using hf hr) h (by intro hh; have := hp hh; simp [Ev.isText] at this)
+          (by intro hh; cases hh)
+      · exact core s _ (by simpa [Ev.tracked] using htr) h hp hf
+  | cdata str =>
+    simp only [step]
+    split
+    · refine ⟨rfl, h, ?_, hf⟩
+      simp only [lastClsFrom]
+      intro hh; have := hp hh; simp [Ev.isText] at this
+    · split
+      · rename_i _ hr
+        exact core _ (.raw str) (by simpa [Ev.trackedCore] using hf hr) h (by intro hh; have := hp hh; simp [Ev.isText] at this)
+          (by intro hh; cases hh)
+      · exact core s _ (by simpa [Ev.tracked] using htr) h hp hf
+  | startElement nm a => exact core s _ (by simpa [Ev.tracked] using htr) h hp hf
+  | endElement nm => exact core s _ (by simpa [Ev.tracked] using htr) h hp hf
+  | raw str => exact core s _ (by simpa [Ev.tracked] using htr) h hp hf
+  | comment str => exact core s _ (by simpa [Ev.tracked] using htr) h hp hf
+
 theorem runFrom_noAdj (cc : CodeCfg) (c : SerCfg) (n : Nat) (evs : List Ev) (s : SSt) (p : Option Bool)
-    (htr : ∀ e ∈ evs, e.tracked cc = true) (h : Inv s p) (hp : p ≠ some false) :
+    (htr : ∀ e ∈ evs, e.tracked cc = true) (h : Inv s p) (hp : p ≠ some false)
+    (hf : s.nextIsRaw = true → cc.rawSetsPrevText = true) :
     noAdjFrom p (runFrom cc c (.real n) s evs).2 = true ∧
     Inv (runFrom cc c (.real n) s evs).1 (lastClsFrom p (runFrom cc c (.real n) s evs).2) ∧
     lastClsFrom p (runFrom cc c (.real n) s evs).2 ≠ some false := by
@@ -232,8 +355,8 @@ theorem runFrom_noAdj (cc : CodeCfg) (c : SerCfg) (n : Nat) (evs : List Ev) (s :
   | nil => exact ⟨rfl, h, hp⟩
   | cons e es ih =>
     simp only [runFrom]
-    obtain ⟨a1, a2, a3⟩ := step_noAdj cc c n s e p (htr e (by simp)) h (fun hh => absurd hh hp)
-    obtain ⟨b1, b2, b3⟩ := ih _ _ (fun e' he' => htr e' (by simp [he'])) a2 a3
+    obtain ⟨a1, a2, a3, a4⟩ := step_noAdj cc c n s e p (htr e (by simp)) h (fun hh => absurd hh hp) hf
+    obtain ⟨b1, b2, b3⟩ := ih _ _ (fun e' he' => htr e' (by simp [he'])) a2 a3 a4
     refine ⟨?_, ?_, ?_⟩
     · rw [noAdjFrom_append, a1, b1]; rfl
     · rw [lastClsFrom_append]; exact b2
@@ -241,7 +364,7 @@ theorem runFrom_noAdj (cc : CodeCfg) (c : SerCfg) (n : Nat) (evs : List Ev) (s :
 
 theorem endDocument_noAdj (n : Nat) (s : SSt) (p : Option Bool) (h : Inv s p) :
     noAdjFrom p (endDocument (.real n) s) = true := by
-  obtain ⟨stack, nd, ⟨ci, snl, pres, prev, pstack⟩⟩ := s
+  obtain ⟨stack, nd, ⟨ci, snl, pres, prev, pstack⟩, nr⟩ := s
   unfold Inv at h
   rcases p with _ | _ | _
   · cases pres <;> cases prev <;>
@@ -254,25 +377,27 @@ theorem endDocument_noAdj (n : Nat) (s : SSt) (p : Option Bool) (h : Inv s p) :
 
 /-- body from a state whose last written token is not an inserted one -/
 theorem body_noAdj (cc : CodeCfg) (c : SerCfg) (n : Nat) (evs : List Ev) (s : SSt) (p : Option Bool)
-    (htr : ∀ e ∈ evs, e.tracked cc = true) (h : Inv s p) (hp : p ≠ some false) :
+    (htr : ∀ e ∈ evs, e.tracked cc = true) (h : Inv s p) (hp : p ≠ some false)
+    (hf : s.nextIsRaw = true → cc.rawSetsPrevText = true) :
     noAdjFrom p (body cc c (.real n) s evs) = true := by
   simp only [body]
-  obtain ⟨a1, a2, _⟩ := runFrom_noAdj cc c n evs s p htr h hp
+  obtain ⟨a1, a2, _⟩ := runFrom_noAdj cc c n evs s p htr h hp hf
   rw [noAdjFrom_append, a1, endDocument_noAdj n _ _ a2]; rfl
 
 /-- body right after the XML declaration's line separator: the first event must not be a text event -/
 theorem body_noAdj_afterIns (cc : CodeCfg) (c : SerCfg) (n : Nat) (evs : List Ev) (s : SSt)
-    (htr : ∀ e ∈ evs, e.tracked cc = true) (hfirst : ∀ e, evs.head? = some e → e.isText = false) :
+    (htr : ∀ e ∈ evs, e.tracked cc = true) (hfirst : ∀ e, evs.head? = some e → e.isText = false)
+    (hf : s.nextIsRaw = true → cc.rawSetsPrevText = true) :
     noAdjFrom (some false) (body cc c (.real n) s evs) = true := by
   cases evs with
   | nil =>
-    obtain ⟨stack, nd, ⟨ci, snl, pres, prev, pstack⟩⟩ := s
+    obtain ⟨stack, nd, ⟨ci, snl, pres, prev, pstack⟩, nr⟩ := s
     cases pres <;> cases prev <;>
       simp [body, runFrom, endDocument, ISt.upd, ISt.indent, noAdjFrom, clsOk, Tok.cls, Tok.isTextual, Tok.isIns]
   | cons e es =>
     have he : e.isText = false := hfirst e rfl
-    obtain ⟨a1, a2, a3⟩ := step_noAdj cc c n s e (some false) (htr e (by simp)) (fun hh => by cases hh) (fun _ => he)
-    have hb := body_noAdj cc c n es _ _ (fun e' he' => htr e' (by simp [he'])) a2 a3
+    obtain ⟨a1, a2, a3, a4⟩ := step_noAdj cc c n s e (some false) (htr e (by simp)) (fun hh => by cases hh) (fun _ => he) hf
+    have hb := body_noAdj cc c n es _ _ (fun e' he' => htr e' (by simp [he'])) a2 a3 a4
     simp only [body, runFrom] at hb ⊢
     rw [List.append_assoc, noAdjFrom_append, a1, hb]; rfl
 
